@@ -5,6 +5,8 @@ R13.2 the format record is fully initialised before the first formatted write (t
 R13.3 five-digit wrap: identity on [0, 99999], range within [0, 99999] on [0, 10^7]
 R13.4 box line: scatter/gather index tables agree and are a permutation of 0..8
 R13.5 atom-count back-fill geometry (placeholder, seek distance, field width agree)
+R13.4b every number of box values the writer can emit is accepted by the reader (exact value sets of small integer expressions)
+R13.8 the record writer/reader keep no table between calls
 """
 from __future__ import annotations
 
